@@ -472,6 +472,39 @@ func runC17(r *rt.Run, tier string) {
 		for i := 0; i < len(got) && i < n; i++ {
 			clCompare(r, api, &got[i], entries[i], i)
 		}
+		if len(got) == n && t.Bool(1, 3, "c17.edit-and-reparse") {
+			// the caller edits what it was given (entries are plain values it owns),
+			// then the same text is parsed again: the second result is again what
+			// the text says, and sibling entries were not touched by the edit
+			r.Probe("result-edited-then-parsed-again")
+			k := t.Draw(n, "c17.edit.entry")
+			if got[k].Arguments == nil {
+				got[k].Arguments = map[string]string{}
+			}
+			got[k].Arguments["urgency"] = "edited-by-caller"
+			got[k].Arguments["x-added"] = "1"
+			got[k].Source, got[k].Target, got[k].Changelog = "edited", "edited", "edited"
+			for i := 0; i < n; i++ {
+				if i != k {
+					clCompare(r, api+"/sibling-after-edit", &got[i], entries[i], i)
+				}
+			}
+			var again changelog.ChangelogEntries
+			var aerr error
+			task2 := r.Solo("parser-again", func() { again, aerr = changelog.Parse(simio.NewPlainReader(r, "changelog-again", doc)) })
+			if taskTrouble(r, "C17", "Parse/again", task2) {
+				return
+			}
+			if aerr != nil || len(again) != n {
+				if !noNL || aerr == nil {
+					r.Violate("C17/entry-count", "Parse/again", "second parse of the same text: %d entries, err=%v (first: %d, nil)", len(again), aerr, n)
+				}
+				return
+			}
+			for i := range again {
+				clCompare(r, "Parse/again-after-edit", &again[i], entries[i], i)
+			}
+		}
 	case kind == "truncate":
 		m := 0
 		for m < n && entries[m].nlEnd <= pos {
@@ -656,5 +689,5 @@ func init() {
 		},
 		Assumptions: []string{"reference renderer and entry model written from deb-changelog(5), independent of the library", "time.Time comparison trusts the Go standard library"},
 	})
-	propProbes["C17"] = []string{"via-file-entry-point", "file-call-failed:open", "file-call-failed:read", "ParseOne-on-a-small-bufio-reader", "concurrent-parses-after-a-truncated-one", "change-line-longer-than-4096-bytes", "change-line-with-carriage-return", "no-final-newline", "truncate-on-entry-boundary", "truncate-inside-entry", "truncate-only-final-newline-missing"}
+	propProbes["C17"] = []string{"result-edited-then-parsed-again", "via-file-entry-point", "file-call-failed:open", "file-call-failed:read", "ParseOne-on-a-small-bufio-reader", "concurrent-parses-after-a-truncated-one", "change-line-longer-than-4096-bytes", "change-line-with-carriage-return", "no-final-newline", "truncate-on-entry-boundary", "truncate-inside-entry", "truncate-only-final-newline-missing"}
 }
